@@ -90,6 +90,7 @@ FORM_BY_ID = {f[0]: f for f in FORMS}
 
 CHUNK = 2048
 CASE_CPU_SECONDS = 60.0
+CASE_CPU_SECONDS_QUICK = 50.0
 _tcache = {}
 
 
